@@ -41,7 +41,7 @@ BOUNDARY = [0, 1, 23, 24, 25, 47, 48, 49, 72, 96, 120, 143, 144]
 
 
 def count(tier):
-    return 400 if tier == "quick" else 20000
+    return 1200 if tier == "quick" else 30000
 
 
 def exhaustive(tier):
@@ -91,9 +91,6 @@ def make(i, base_seed, tier):
             _, src, dst = cands[rng.randrange(max(1, len(cands) // 4))]
         hi = 144 if frag else 24
         ln = rng.choice([x for x in BOUNDARY if x <= hi]) if rng.random() < 0.5 else rng.randint(0, hi)
-        # known finding D4 (fragmented + routed): keep about 10 % of the messages in that class
-        if ln > 24 and len(netref.path(src, dst)) > 2 and rng.random() < 0.85:
-            ln = rng.randint(0, 24)
         msgs.append({"src": src, "dst": dst, "len": ln, "type": rng.randint(0, 127), "seed": rng.getrandbits(20),
                      "api": rng.choice(["write", "send"])})
     ends = {m["src"] for m in msgs} | {m["dst"] for m in msgs}
